@@ -3,7 +3,7 @@
 // case:  <kind> <class> <maxdepth> <cur> <predef> <dicthex> <viewhex> <dechex> [=> expected]
 // The dictionary is given as text and parsed with the crate's DictP; the view is a ParseBuffer
 // over <viewhex> with its cursor set to <cur>; <predef> lists ids registered beforehand
-// (bound to the integer 7*id+gen).  <dechex> is for the model only (the real decoders run here).
+// (bound to the integer 7*(id%1000)+gen%7).  <dechex> is for the model only (the real decoders run here).
 //
 // output: ok [id gen start end sexp]... defs id.gen=sexp|none ... cur <cursor> depth <depth>
 //         err
@@ -62,7 +62,7 @@ fn run(line: &str) -> String {
     // the context
     let mut ctxt = PDFObjContext::new(maxd);
     for (id, gen) in predef.iter() {
-        let v = PDFObjT::Integer(IntegerT::new((7 * id + gen) as i64));
+        let v = PDFObjT::Integer(IntegerT::new((7 * (id % 1000) + gen % 7) as i64));
         let ind = IndirectT::new(*id, *gen, Rc::new(LocatedVal::new(v, 0, 0)));
         ctxt.register_obj(&LocatedVal::new(ind, 0, 0));
     }
